@@ -48,7 +48,7 @@ class SynapseWorld(World):
         rc, ro = stream(seed, "config"), stream(seed, "ops")
         kind = rc.choice(KINDS)
         dt = rc.choice(DTS)
-        dk = rc.choice([0, 0, 1, 3, 3, 4.5, 6])
+        dk = rc.choice([0, 0, 1, 3, 3, 4.5, 6, 0.5])
         tol = rc.choice([0.0, 0.0, 1e-6, 1e-3])
         cfg = {"kind": kind, "dt": dt, "delay": dk * dt, "delay_k": dk, "shape": rc.choice([[1], [3], [2, 2]]), "B": rc.choice([1, 1, 2, 3]),
                "interp": rc.choice(["previous", "nearest"]), "tol": tol,
@@ -57,6 +57,9 @@ class SynapseWorld(World):
                "floatspikes": rc.random() < 0.3}
         if kind == "dexp" and cfg["tau"] <= cfg["tau_r"]:
             cfg["tau"] = 2.0
+        # a third of the synapses reach their step time / maximum delay through the property setters before the run starts
+        via = stream(seed, "via")
+        cfg["via"] = {"dt0": via.choice(DTS), "delay_k0": via.choice([0, 1, 3, 6]), "order": via.choice(["dt_delay", "delay_dt"])} if via.random() < 0.33 else None
         n = size_formula(dt, cfg["delay"], True)
         numel = cfg["B"] * int(np.prod(cfg["shape"]))
         ops = []
@@ -97,6 +100,13 @@ class SynapseWorld(World):
         from inferno import neural as nn_
 
         shape, dt = tuple(c["shape"]), c["dt"]
+        via = c.get("via")
+        if via:
+            syn = self._build(dict(c, via=None, dt=via["dt0"], delay=via["delay_k0"] * via["dt0"]), inplace)
+            for a in via["order"].split("_"):
+                setattr(syn, a, c[a])
+            syn.clear()
+            return syn
         common = dict(delay=c["delay"], interp_tol=c["tol"], current_overbound=c["cob"], spike_overbound=c["sob"], batch_size=c["B"], inplace=inplace)
         k = c["kind"]
         if k == "delta":
@@ -113,7 +123,9 @@ class SynapseWorld(World):
         shape, B = tuple(c["shape"]), c["B"]
         bshape = (B,) + shape
         n = size_formula(dt, c["delay"], True)
-        facts = {"kind": kind, "dt": dt, "delay_k": c["delay_k"], "interp": c["interp"], "tol": tol, "cob": c["cob"], "sob": c["sob"]}
+        facts = {"kind": kind, "dt": dt, "delay_k": c["delay_k"], "interp": c["interp"], "tol": tol, "cob": c["cob"], "sob": c["sob"], "via_setters": bool(c.get("via"))}
+        if c.get("via"):
+            ctx.fault("configured_through_setters")
         with ctx.impl("synapse()", facts):
             syn = self._build(c, False)
             twin = self._build(c, True)
